@@ -211,14 +211,29 @@ func VT_C19_Step() {
 func VT_C19_Concurrent() {
 	clk := &vtClk{now: vt.Time("now")}
 	m := &Model{
-		modes:      resource.NewCollection(resource.WithInitialRecord(vtModeIDs[0], &traits.ElectricMode{Id: vtModeIDs[0], Title: "t"})),
+		modes: resource.NewCollection(resource.WithInitialRecord(vtModeIDs[0], &traits.ElectricMode{Id: vtModeIDs[0], Title: "t"}),
+			resource.WithInitialRecord(vtModeIDs[1], &traits.ElectricMode{Id: vtModeIDs[1], Title: "t"})),
 		activeMode: resource.NewValue(resource.WithInitialValue(&traits.ElectricMode{})),
 		demand:     resource.NewValue(resource.WithInitialValue(&traits.ElectricDemand{})),
 		clock:      clk,
 	}
 	done := make(chan struct{}, 2)
 	changed := false
-	switch vt.Choose("pair", 2) {
+	switch vt.Choose("pair", 4) {
+	case 2: // two updates making different modes normal
+		go func() {
+			m.UpdateMode(&traits.ElectricMode{Id: vtModeIDs[0], Normal: true, Title: "u"})
+			done <- struct{}{}
+		}()
+		go func() {
+			m.UpdateMode(&traits.ElectricMode{Id: vtModeIDs[1], Normal: true, Title: "u"}, resource.WithUpdatePaths("normal"))
+			done <- struct{}{}
+		}()
+	case 3: // deleting a mode while the active mode is cleared to it (it is the normal mode)
+		m.UpdateMode(&traits.ElectricMode{Id: vtModeIDs[1], Normal: true, Title: "n"})
+		go func() { m.DeleteMode(vtModeIDs[1]); done <- struct{}{} }()
+		go func() { m.ChangeToNormalMode(); done <- struct{}{} }()
+		changed = true
 	case 0: // two ways of making a mode normal
 		go func() { m.CreateMode(&traits.ElectricMode{Normal: true, Title: "n"}); done <- struct{}{} }()
 		go func() {
